@@ -150,7 +150,7 @@ CLAIMS['C08'] = dict(category='proof', ref='5 Core E, 8 C08', text=_BROKER_TEXT 
     "C08_refines_reference: after any admitted history the retained trie is the reference broker's store and the deliveries after a SUBACK are exactly (as a multiset, DUP/id free) the messages it demands, RETAIN=1.") + _REFINE + _PARTIAL_SCHED +
     " Byte identity of payloads across ring reuse and retained updates concurrent to subscriptions are memory/race facts outside the pure model (correspondence / C18).")
 CLAIMS['C09'] = dict(category='proof', ref='5 Core E, 8 C09', text=_BROKER_TEXT % (
-    "Theorems (22): DISCONNECT emits only the close, nothing is published, later events for the connection are silent (C09_disconnect_no_will, "
+    "Theorems (23; the last one, C09_unanswerable_connect_no_will: a CONNECT whose answer cannot be written yields the ends of the connections it takes over and its own close - its will is never published, no connection and no subscription exists for it): DISCONNECT emits only the close, nothing is published, later events for the connection are silent (C09_disconnect_no_will, "
     "C09_disconnect_after_history); an abnormal end emits the close followed by exactly the fan-out of the will, once (C09_will_published_once, "
     "C09_no_will_no_publish, C09_stopBase); after an accepted CONNECT, fresh or resumed, the session's will is THIS CONNECT's (topic, payload, QoS, "
     "retain) (C09_will_is_current_connect, C09_initWill_fields, C09_current_will_published, C09_will_of_own_connect over quiet histories); no other event "
@@ -167,7 +167,7 @@ CLAIMS['C10'] = dict(category='proof', ref='5 Core E, 8 C10', text=_BROKER_TEXT 
     "C10_refines_reference: after any admitted history an accepted CONNECT first takes over the live connection of its client identifier, if any (there is at most one; model `stop` = reference `endConn`, not graceful), then is answered CONNACK 0 with SessionPresent = (CleanSession=0 and the reference broker stores a session for the id after the take-over: iff the connection taken over had CleanSession=0, or an older session was stored), and the trie then holds the reference broker's held list - nothing of the connection taken over, the resumed subscriptions for the new one.") + _REFINE + _PARTIAL_SCHED +
     " Two live connections under one client identifier no longer exist: take-over (finding G5, repaired; the regression witness - the older connection ending later must not take the newer one's subscription with it - is replayed on every run). Source ties for the take-over (Properties/C10Source.lean, regenerated facts of extract/facts_takeover.go): disconnectClient drops the entries whose `stopped` channel is closed (not those whose `closed` flag is set), collects the client's connections, unlocks, and for each calls stop() and waits for `stopped` - for every population of live / ending / finished connections it returns with every connection of the client FINISHED, which is the state the model's `first` runs in; handleConnection takes connectMu before it and holds it to its return (C10_takeover_shape_is_source); Session.Resumable is initted && Cmsg != nil && !CleanSession and getSession resumes only behind it, the model's `filter (!s.clean)` (C10_resumable_is_source). The held take-over scenario `life takeover resume` (a CONNECT while the old connection's teardown is pending behind a client that does not read: no CONNACK before the teardown has finished, and the new connection's session survives the old one's late end)  is part of every run. FAILED HANDSHAKES (Model/Broker.lean `firstFail`/`connectFail`, Spec/Broker.lean `firstFail`/`connectFail`, Proofs/BrokerRefineFail.lean): the path of handleConnection on which the CONNACK of an accepted CONNECT cannot be written (peer gone) is part of the model - take-over, then the session lookup / Session.Update / creation of getSession, and nothing else: no connection, no re-subscription, no stop() - and of the reference broker (CleanSession=1 discards the stored state, CleanSession=0 keeps it exactly as it was); C10_failed_handshake_refines extends the refinement theorem to histories with such events (EvX, BrokerX_refines_spec: R preserved, outputs accepted), C10_failed_handshake_keeps_session / _model_keeps_session state that the stored session, its subscriptions and open QoS 2 exchanges survive the failed attempt on both sides, C10_failed_write_is_source ties the error branch to the source (regenerated fact takeoverWriteFailReturnsOnly: the branch is `return nil, err` alone). Tie: event `failfirst` (the broker's end of the pipe refuses every write) in one CONNECT of nine of every broker generator; whether a CleanSession=0 CONNECT that could not be answered and found no state counts as an earlier CleanSession=0 connection is left open by the property - the SessionPresent bit of that client's next CONNACK is not compared in the specification stream.")
 CLAIMS['C11'] = dict(category='proof', ref='5 Core E, 8 C11', text=_BROKER_TEXT % (
-    "Theorems (15): CONNACK 0 is emitted exactly when the reference refusal list is empty; otherwise the state is unchanged and the answer is a silent close "
+    "Theorems (17; the last two - C11_unanswerable_refusal_changes_nothing, C11_unanswerable_refusal_spec - for a refused first packet whose refusal cannot even be written: state untouched on both sides, only the close): CONNACK 0 is emitted exactly when the reference refusal list is empty; otherwise the state is unchanged and the answer is a silent close "
     "with 'malformed' among the reasons or a code k!=0 with k among them (C11_table, C11_accept_iff, C11_checks_are_spec); precedence of the code's checks "
     "(C11_precedence_*); exactly one CONNACK for a CONNECT that passes the flag checks, none otherwise (C11_one_connack, C11_not_connect); a refused first "
     "packet and any further events on a connection that was never accepted leave the state unchanged and address only that connection "
